@@ -1,22 +1,26 @@
-import DimodModel.Cqm
+import DimodModel.Fix
 
-/-! D4 on the mirrored model: objective 3·i² + 2·i + 1 over one INTEGER variable `i`;
-    fixing i := 2 in place must leave the constant 3·4 + 2·2 + 1 = 17. -/
+/-! D4 on the mirrored model (`CqmC.fixVariableOld` = the in-place path with `substitute_variable` as it was
+    before the repair): objective 3·i² + 2·i + 1 over one INTEGER variable `i`; fixing i := 2 in place must
+    leave the constant 3·4 + 2·2 + 1 = 17.  The pre-repair code computes 5; the repaired code 17. -/
 
-def cqm0 : Cqm :=
-  ({} : Cqm).addVariable .integer (.int 7) 0 5 |>.1
+namespace D4Witness
+open En
 
-def mi : Cqm.ModelIn :=
-  { vars := [.int 7], info := [(.integer, 0, 5)], lin := [2], quad := [(0, 0, 3)], off := 1 }
+def obj : Expr Rat := { vars := [0], qb := { lin := [2], adj := some [[(0, 3)]], off := 1 } }
 
-def fixedOffset : Option Rat := do
-  let m ← cqm0.setObjective mi
-  let m ← m.fixVariable (.int 7) 2
-  pure m.obj.qb.off
+def cqm0 : CqmC Rat := { obj := obj, cons := [], info := [{ vt := .integer, lb := 0, ub := 5 }] }
 
-/-- what the code (and therefore the model) computes today -/
-example : fixedOffset = some 5 := by decide +kernel
-/-- hence the property statement is refuted on the model by a concrete witness -/
-theorem fix_inplace_wrong_on_selfloop : fixedOffset ≠ some 17 := by decide +kernel
+/-- what the code computed before the repair -/
+theorem fix_inplace_old_value : (cqm0.fixVariableOld 0 2).obj.qb.off = 5 := by decide +kernel
 
-#print axioms fix_inplace_wrong_on_selfloop
+/-- hence the property statement is refuted on the pre-repair model by a concrete witness -/
+theorem fix_inplace_wrong_on_selfloop : (cqm0.fixVariableOld 0 2).obj.qb.off ≠ 17 := by decide +kernel
+
+/-- the copying path on the same input -/
+theorem fix_copy_value : (cqm0.fixVariables [(0, 2)]).obj.qb.off = 17 := by decide +kernel
+
+/-- after the repair the in-place path agrees -/
+theorem fix_inplace_new_value : (cqm0.fixVariable 0 2).obj.qb.off = 17 := by decide +kernel
+
+end D4Witness
